@@ -15,7 +15,8 @@ exported with the real `export()` in every format {dir, tar, tgz, tbz2, txz,
 tlzma, zip} x roots (None -> derived from the destination name, "", nested,
 trailing slash, unicode, long) x sub-directory selections (none, "", every
 directory, trailing slashes, a file, a symlink, a missing path, a string prefix
-of a sibling, "/", and selections that are no tree path: `/a`, `//a`, `./a`, `a/.`,
+of a sibling, a directory whose own path recurs deeper inside it - `lib/vendor/lib/x`,
+`lib/mylib/x` -, "/", and selections that are no tree path: `/a`, `//a`, `./a`, `a/.`,
 `a//b`) x {plain, ContentFilterTree}.  The archive is read back with
 the Python stdlib and the ORDERED member list (name, kind, content, executable
 bit, link target) is compared with the Lean model run on the real
@@ -58,6 +59,8 @@ Mutants this was built against (scratch worktrees):
  * `pathjoin(root, final_path)` -> `root + final_path`;
  * get_root_name: strips the first matching extension anywhere (`find`) instead of `endswith`;
  * harmless: `for ... in sorted-equivalent order` rewrites, `rstrip` via while-loop.
+Second-round seed C42b: `final_path = path.rpartition(subdir + "/")[2]` (strips up to the LAST
+occurrence): oracle, for the selections counted as `subdir:dir+path-recurs-inside` (60 % of the trees).
 Improvement round (raw-name oracle, end-to-end theorems, root names):
  * tar: `pathjoin(root, p)` -> `root + "/" + p` when root ends in `/` (`r//x`): oracle;
  * zip: `pathjoin(root, dp)` -> `root + "/" + dp`: oracle (`r//in-a`);
@@ -84,7 +87,7 @@ THEOREMS = [
     "finals_rel", "export_iter_eq_spec", "tar_export_exact", "dir_export_exact", "zip_export_exact",
     "root_prefix_export", "tar_export_names_nodup", "zip_export_names_nodup_partial",
     "export_nonempty_selection_is_path", "export_selection_empty_component", "export_selection_not_in_tree",
-    "rootName_strips_ext", "rootName_no_ext", "rootName_witness",
+    "rootName_strips_ext", "rootName_no_ext", "rootName_witness", "recurring_name_witness",
 ]
 RULE = ("case = (generated revision tree, format, root, sub-directory selection, filtered?); trees are drawn from a "
         "namespace of unusual names; non-trivial = the selection exports >= 2 members; distinct by the canonical "
@@ -160,6 +163,34 @@ def gen_spec(rng):
                 spec[sib + "/in-sibling"] = ("f", b"in the sibling\n", False)
             else:
                 spec[sib] = ("f", b"sibling\n", rng.random() < 0.5)
+    if rng.random() < 0.6:
+        # the path of a directory recurs deeper inside that directory, exactly (`lib/vendor/lib/util`) or as the
+        # end of a longer name (`lib/mylib/mod`): `subdir + "/"` then occurs more than once in the tree path, so
+        # anything but "strip the LEADING subdir/" (rpartition, replace, split ...) re-roots those entries wrongly
+        dirs = sorted(k for k, v in spec.items() if v[0] == "d" and not k.split("/")[0].startswith((".bzr", ".git"))
+                      and k.count("/") < 2)
+        if dirs and rng.random() < 0.75:
+            base = rng.choice(dirs)
+        else:
+            base = "lib" if spec.get("lib", ("d",))[0] == "d" else "zz-lib"
+            spec.setdefault(base, ("d", None, False))
+        comps = base.split("/")
+        for variant in rng.sample(["exact", "suffix", "suffix"], rng.randint(1, 2)) + ["exact"][:rng.random() < 0.5]:
+            mid = rng.choice(["vendor", "a b", "\u00fc", "3rd"])
+            first = comps[0] if variant == "exact" else rng.choice(["my", "x", ".", "-"]) + comps[0]
+            chain = ([base, mid] if variant == "exact" or rng.random() < 0.5 else [base]) + [first] + comps[1:]
+            cur = ""
+            for c in chain:
+                cur = c if not cur else cur + "/" + c
+                if spec.get(cur, ("d",))[0] != "d":
+                    break
+                spec.setdefault(cur, ("d", None, False))
+            else:
+                leaf = cur + "/" + rng.choice(["util.py", "mod", "d.txt"])
+                spec.setdefault(leaf, ("f", ("deep in %s\n" % cur).encode("utf-8"), rng.random() < 0.3))
+                if rng.random() < 0.5:
+                    spec.setdefault(cur + "/deep", ("d", None, False))
+                    spec.setdefault(cur + "/deep/data.bin", ("f", b"\x00\x01data", False))
     if rng.random() < 0.3:
         # the zip exporter stores the symlink `x` as a text member `x.lnk`
         links = sorted(k for k, v in spec.items() if v[0] == "l" and not k.split("/")[0].startswith((".bzr", ".git")))
@@ -578,13 +609,17 @@ def subdir_choices(ents, rng):
     for p in rng.sample(nested, min(2, len(nested))):
         out.setdefault(p.replace("/", "//", 1), "double-slash")
         out.setdefault(p.rsplit("/", 1)[0] + "//", "dir-slash")
+    for p in dirs:
+        # the selection's own path recurs deeper inside it (`lib/vendor/lib/...`, `lib/mylib/...`)
+        if any(e["path"].startswith(p + "/") and e["path"].find(p + "/", 1) > 0 for e in ents):
+            out[p] = "dir+path-recurs-inside"
     paths = {e["path"] for e in ents}
     for p in sorted(paths):
         # a selection that is a proper string prefix of a sibling name
         if p and any(q != p and q.startswith(p) and not q.startswith(p + "/") for q in paths):
             out.setdefault(p, "string-prefix-of-sibling")
-            if out[p] == "dir":
-                out[p] = "dir+string-prefix-of-sibling"
+            if out[p] in ("dir", "dir+path-recurs-inside"):
+                out[p] = out[p] + "+string-prefix-of-sibling"
     return out
 
 
@@ -708,8 +743,10 @@ def combos_for(ctx, T, n):
     while len(out) < n:
         out.append((rng.choice(FORMATS), rng.choice(ROOTS), rng.choice(real), rng.random() < 0.25))
     if len(out) > n:
-        rng.shuffle(out)
-        out = out[:n]
+        keep = [o for o in out if "+" in T["subkinds"].get(o[2], "")]      # the aimed corners are never dropped
+        rest = [o for o in out if o not in keep]
+        rng.shuffle(rest)
+        out = keep + rest[:max(0, n - len(keep))]
     return out
 
 
